@@ -760,6 +760,13 @@ def run_histories(ctx, hists, oracles, tag="random"):
             oracle_c05(H, evs, mkfail("c05"))
         if "c09" in oracles:
             oracle_c09(H, evs, tables, panic, mkfail("c09"))
+        if getattr(H, "expect_unsub", None) is not None and ("c05" in oracles or "c18" in oracles) and not any(d["F"] for d in evs):
+            want = json.dumps([H.expect_unsub])
+            n = sum(1 for k, o in wire_requests(evs)
+                    if isinstance(o, dict) and str(o.get("method", "")).startswith("unsub") and json.dumps(o.get("params")) == want)
+            if n != 1:
+                ctx.fail("oracle", "dropped-subscription-not-unsubscribed-once", case,
+                         "subscription %r was dropped while the request queue was full and then got another notification: %d unsubscribe requests on the wire" % (H.expect_unsub, n))
         if "c18" in oracles:
             if H.clean and quiescent_by_output(H, evs):
                 ctx.count("c18:quiescent-histories")
@@ -899,6 +906,52 @@ def c05_lag_histories(rng):
                         H.add("next %d" % s["h"], kind="next")
                     H.clean = False
                     H.expect_lag = s["h"]
+                    out.append(H)
+    return out
+
+
+def c05_drop_full_queue_histories(rng):
+    """a live subscription is dropped while the front-to-back queue is full (the Drop impl's try_send loses the close
+    message); later the queue drains and the server pushes one more notification for it: the client must then send
+    exactly one unsubscribe (and, once that is acknowledged, hold nothing)"""
+    out = []
+    for idstr in (0, 1):
+        for qcap in (1, 2):
+            for extra_calls in (qcap + 1, qcap + 2):
+                for pushes_before in (0, 1):
+                    H = new_hist(rng, idstr=idstr, qcap=qcap, bufcap=4, gate=1)
+                    H.op_sub()
+                    hs = H.h
+                    for _ in range(3):
+                        H.add("release", kind="release")
+                    s = accept_sub_h(H, hs)
+                    for j in range(pushes_before):
+                        H.add("back %s" % hx(J(H.notif(s["nm"], s["sid"], "b%d" % j))), kind="back", what="pushes",
+                              items=[dict(what="push", sid=s["sid"], val="b%d" % j)], grouped=False)
+                    # one call blocks inside its transport write, the next ones fill the queue
+                    for _ in range(1 + extra_calls):
+                        H.op_call()
+                    H.active.pop(hs)
+                    s["gone"] = True
+                    H.ended.append(s)
+                    H.add("drop %d" % hs, kind="drop", sh=hs, sid=s["sid"], uid=s["uid"])
+                    for _ in range(8):
+                        H.add("release", kind="release")
+                    H.add("back %s" % hx(J(H.notif(s["nm"], s["sid"], "late"))), kind="back", what="pushes",
+                          items=[dict(what="push-ended", sid=s["sid"], val="late")], grouped=False)
+                    for _ in range(4):
+                        H.add("release", kind="release")
+                    # clean-up: answer the calls, acknowledge the unsubscribe (added by ack_wire_unsubs for C18)
+                    while H.calls:
+                        h = sorted(H.calls)[0]
+                        i = H.calls.pop(h)
+                        H.answered.append(i)
+                        H.add("back %s" % hx(J(H.resp_ok(i))), kind="back", what="answer", id=i, h=h)
+                    for _ in range(3):
+                        H.add("release", kind="release")
+                    H.clean = True
+                    H.cleanup_from = len(H.ev)
+                    H.expect_unsub = s["sid"]
                     out.append(H)
     return out
 
